@@ -98,7 +98,10 @@ func H_C02_routing() {
 	}
 	vAssume(isValidTag(tagName))
 	tag := RegisterTag(tagName)
+	savedHandles := loggerMap // natively the repository's own test files have requested handles
+	loggerMap = map[string]*LoggerWrapper{}
 	defer func() {
+		loggerMap = savedHandles
 		Destroy()
 		delete(tagRegistry, tagName)
 		tag.logger = nil
